@@ -383,6 +383,35 @@ def gen_names(repo):
     return m
 
 
+def gen_bt_array(repo):
+    """T17: the slice / insert / delete algorithm of the two bintime array classes (they must be the same text modulo the class names)"""
+    import re
+    ast = T.ast
+
+    def methods(path, a, b, dty, cls):
+        t = open(path).read().replace(a, "ITEM").replace(b, "item").replace(dty, "DTYPE")
+        tree = ast.parse(t)
+        c = next(n for n in tree.body if isinstance(n, ast.ClassDef) and n.name == cls.replace(a, "ITEM"))
+        out = {}
+        for n in c.body:
+            if isinstance(n, ast.FunctionDef) and not any("overload" in ast.unparse(d) for d in n.decorator_list):
+                for x in ast.walk(n):                      # messages may differ, code may not
+                    if isinstance(x, ast.Constant) and isinstance(x.value, str):
+                        x.value = ""
+                out[n.name] = ast.dump(n)
+        return out
+    p_td = f"{repo}/src/nitypes/bintime/_timedelta_array.py"
+    p_dt = f"{repo}/src/nitypes/bintime/_datetime_array.py"
+    m_td, m_dt = methods(p_td, "TimeDelta", "timedelta", "CVITimeIntervalDType", "TimeDeltaArray"), methods(p_dt, "DateTime", "datetime", "CVIAbsoluteTimeDType", "DateTimeArray")
+    if m_td != m_dt:
+        diff = sorted(k for k in set(m_td) | set(m_dt) if m_td.get(k) != m_dt.get(k))
+        raise T.Untranslatable(f"DateTimeArray and TimeDeltaArray are no longer the same code modulo the class names (methods {diff}); one translation cannot stand for both", where=p_dt)
+    m = T.Module(p_td, "Gen.BtArray")
+    m.extra_imports = ["NiVerif.Model.Np1"]
+    m.translate_bt_array("TimeDeltaArray", "TimeDelta")
+    return m
+
+
 MODULES = [
     # (output file, builder, dependencies by output name)
     ("TimeValueTuple", lambda repo, deps: gen_time_value_tuple(repo), []),
@@ -406,6 +435,7 @@ MODULES = [
     ("ExtProps", lambda repo, deps: gen_ext_props(repo), []),
     ("Units", lambda repo, deps: gen_units(repo), []),
     ("Names", lambda repo, deps: gen_names(repo), []),
+    ("BtArray", lambda repo, deps: gen_bt_array(repo), []),
 ]
 
 
